@@ -48,7 +48,7 @@ CHECKS = {
              "categorize_substances, identify_equilibria, per_reaction_effect_on_substance run on symbolic integer coefficients and z3 proves "
              "the returned sets equal their definitions on every path; subset/+/+=/== with a symbolic predicate; upper_conc_bounds with "
              "symbolic initial concentrations: z3 (LRA) proves bound = min(total/atoms) and that no non-negative state with the same "
-             "element totals exceeds it",
+             "element totals exceeds it, also for other container kinds of the state (reversed OrderedDict, list, tuple, defaultdict with a symbolic non-zero default that lists one species only)",
         note="split: <= 3 canonical disjoint + <= 3 symbolic reactions over <= 7 keys (each path is one concrete graph: bounded exhaustive); "
              "coefficients 0..2; generated formula systems for the bounds; decompose_yields (numpy lstsq) and float coercion of "
              "as_per_substance_array are outside",
@@ -58,7 +58,7 @@ CHECKS = {
         text="bounded symbolic verification: the seven real closed-form functions are executed on z3-backed dual numbers (value and "
              "d/dt), and z3 (NRA, after sound UF normalisation) proves d/dt f = documented rate equation and f(0) = stated initial "
              "concentration for ALL positive parameters and t >= 0; on a time grid (array of symbolic instants) the result equals the "
-             "scalar evaluation, leaves the caller's array untouched and is the same on a second evaluation; a solver model is turned into a concrete witness and replayed "
+             "scalar evaluation, leaves the caller's array untouched and is the same on a second evaluation; the same with each PARAMETER in turn given as an array of two symbolic values; a solver model is turned into a concrete witness and replayed "
              "through the public API with sympy before it is reported",
         note="identity over the reals (float rounding outside); domain assumptions listed in evidence (major>minor for binary_irrev, "
              "|atanh arg|<1 for binary_irrev_cstr); trusted: z3, the chain rules in vlib/dual.py and the ground facts about "
@@ -111,7 +111,7 @@ CHECKS["C07"] = dict(
          "to the specification in both directions - equilibrium block in log space (residuals = 0 <=> A*log c = log K), conservation "
          "block (residuals = 0 <=> B*c = B*c0), transformed variants as f_X(y) == f_Lin(g(y)) - plus the equation count; a second "
          "evaluation of the same instance with other constants must not be influenced by the first; precipitation systems with the solid "
-         "declared present (Ksp over the dissolved species) or absent (amount pinned to `small`); EqSystem.equilibrium_quotients",
+         "declared present (Ksp over the dissolved species) or absent (amount pinned to `small`); a species with a fractional composition; EqSystem.equilibrium_quotients (also batched); one concrete sanity task evaluates the builders on exact rational numbers",
     note="positive concentrations/constants; sympy.expand_log(force=True) trusted for log(prod c^a)=sum a*log c; sympy Matrix.rank used by "
          "the count oracle; systems of 1-3 (thorough 1-5) equilibria from a pool of 18; NumSysLinTanh (not constructible on the pinned "
          "tree, not in the statement's list) outside; expressions the translator cannot read fall back to a concrete replay (never a "
@@ -123,7 +123,7 @@ CHECKS["C04"] = dict(
     engine="S", category="translation_validation",
     text="translation validation per generated reaction system x build configuration (rate constants inlined / named / Arrhenius with and "
          "without unique keys / ArrheniusParam / active substitution (RampedTemp) / substitution vs constants object / CSTR / both builders "
-         "/ rebuild after reassigning rate constants): the real get_odesys and _create_odesys run through the real pyodesys SymbolicSys, "
+         "/ rebuild after reassigning rate constants / CSTR keys given as a list / float coefficients): the real get_odesys and _create_odesys run through the real pyodesys SymbolicSys, "
          "and z3 proves each generated right-hand side equal, as a real identity in concentrations and free parameters, to "
          "sum_r N[r,i]*rate_r from an independent oracle; names / param_names / equation order are compared, and binding the free "
          "parameters is proved to give the inlined build",
